@@ -389,6 +389,63 @@ func genC11Batch(g *Gen) error {
 		}
 		g.P("def %s : String := %s", f.lean, leanStr(g.Src(fd.Body)))
 	}
+	// the read side's loop: coordinator/shard_mapper.go
+	const sm = "coordinator/shard_mapper.go"
+	mm, err := g.Func(sm, "ClusterShardMapper.mapMstShards")
+	if err != nil {
+		return err
+	}
+	g.P("def src_mapMstShards : String := %s", leanStr(g.Src(mm.Body)))
+	// the arguments TargetShards is called with, and where the ShardKeyInfo passed to it is assigned
+	var tsArgs []string
+	skiAssignedInGroupLoop := false
+	ast.Inspect(mm.Body, func(n ast.Node) bool {
+		switch x := n.(type) {
+		case *ast.CallExpr:
+			if se, ok := x.Fun.(*ast.SelectorExpr); ok && se.Sel.Name == "TargetShards" {
+				tsArgs = nil
+				for _, a := range x.Args {
+					tsArgs = append(tsArgs, g.Src(a))
+				}
+			}
+		case *ast.RangeStmt:
+			if g.Src(x.X) == "groups" {
+				ast.Inspect(x.Body, func(m ast.Node) bool {
+					if as, ok := m.(*ast.AssignStmt); ok && len(as.Lhs) == 1 && g.Src(as.Lhs[0]) == "ski" && as.Tok == token.DEFINE {
+						skiAssignedInGroupLoop = true
+					}
+					return true
+				})
+			}
+		}
+		return true
+	})
+	g.StrList("targetShardsArgs", tsArgs)
+	g.P("def skiDeclaredInGroupLoop : Bool := %v", skiAssignedInGroupLoop)
+	ms, err := g.Func(sm, "ClusterShardMapper.mapShards")
+	if err != nil {
+		return err
+	}
+	subCase := ""
+	ast.Inspect(ms.Body, func(n ast.Node) bool {
+		if cc, ok := n.(*ast.CaseClause); ok && len(cc.List) == 1 && g.Src(cc.List[0]) == "*influxql.SubQuery" && subCase == "" {
+			var parts []string
+			for _, st := range cc.Body {
+				parts = append(parts, g.Src(st))
+			}
+			subCase = strings.Join(parts, " ")
+		}
+		return true
+	})
+	if subCase == "" {
+		return fmt.Errorf("%s mapShards: no case *influxql.SubQuery", sm)
+	}
+	g.P("def src_mapShardsSubQuery : String := %s", leanStr(subCase))
+	gt, err := g.Func(sm, "ClusterShardMapper.getTargetShardMsg")
+	if err != nil {
+		return err
+	}
+	g.P("def src_getTargetShardMsg : String := %s", leanStr(g.Src(gt.Body)))
 	msk, err := g.Const(pw, "MaxShardKey")
 	if err != nil {
 		return err
